@@ -120,10 +120,10 @@ def _parse_re_arrow(s):
 
 
 def _parse_re_k(s):
-    m = re.match(r"\s*/(.*)/\s*(#(\d+))?\s*$", s)
+    m = re.match(r"\s*/(.*)/\s*(#(\d+|all))?\s*$", s)
     if not m:
         raise ValueError("bad anchor: " + s)
-    return m.group(1), int(m.group(3) or 0)
+    return m.group(1), (-1 if m.group(3) == "all" else int(m.group(3) or 0))
 
 
 class Weaver:
@@ -337,11 +337,13 @@ class Weaver:
                 self._anchor(where, body, lno, src, toks, it, loops, add, tmpl_origin, f, head["fn"])
             elif k == "twin":
                 twins.append(_parse_re_arrow(hd[len("twin"):]))
-            elif k == "replace":
-                pat, repl, allf = _parse_re_arrow(hd[len("replace"):])
+            elif k in ("replace", "replace?"):
+                pat, repl, allf = _parse_re_arrow(hd[len(k):])
                 bs, be = T(body_lo).end, T(body_hi).start
                 ms = list(re.finditer(pat, src[bs:be]))
                 if not ms:
+                    if k == "replace?":
+                        continue
                     raise Lost("%s::%s: body pattern /%s/ not found" % (f, head["fn"], pat))
                 for m in (ms if allf else ms[:1]):
                     add(bs + m.start(), bs + m.end(), m.expand(repl), "R5/R7")
@@ -397,8 +399,7 @@ class Weaver:
         # apply -----------------------------------------------------------------
         # an explicit site replacement (R5/R7) wins over automatic rules that fall inside its span
         explicit = [(e[0], e[1]) for e in edits if e[5] == "R5/R7" and e[0] < e[1]]
-        edits = [e for e in edits if e[5] == "R5/R7" or not any(a <= e[0] and e[1] <= b and (e[0], e[1]) != (a, b) for (a, b) in explicit)
-                 or e[5] in ("contract", "hint")]
+        edits = [e for e in edits if e[5] == "R5/R7" or e[0] == e[1] or not any(a <= e[0] and e[1] <= b for (a, b) in explicit)]
         edits.sort(key=lambda e: (e[0], 0 if e[0] == e[1] else 1, e[2], e[3]))
         # overlap check
         last_end = it.start
@@ -474,16 +475,16 @@ class Weaver:
             pat, k = _parse_re_k(where[len(w[0]):])
             bs, be = T(it.body_open).end, T(it.body_close).start
             ms = list(re.finditer(pat, src[bs:be]))
-            if len(ms) <= k:
+            if (k >= 0 and len(ms) <= k) or not ms:
                 raise Lost("%s::%s: anchor /%s/ #%d not found" % (f, fn, pat, k))
-            m = ms[k]
-            if w[0] == "before":
-                p = src.rfind("\n", 0, bs + m.start()) + 1
-                add(p, p, "\n".join(body) + "\n", "hint", 40, origin=tmpl_origin(lno))
-            else:
-                # after the end of the statement: the next `;` at depth 0 from the match, then end of line
-                p = self._stmt_end(src, toks, bs + m.end())
-                add(p, p, text, "hint", 40, origin=tmpl_origin(lno, 1))
+            for m in (ms if k < 0 else [ms[k]]):
+                if w[0] == "before":
+                    p = src.rfind("\n", 0, bs + m.start()) + 1
+                    add(p, p, "\n".join(body) + "\n", "hint", 40, origin=tmpl_origin(lno))
+                else:
+                    # after the end of the statement: the next `;` at depth 0 from the match, then end of line
+                    p = bs + m.end() if src[bs + m.end() - 1] == ";" else self._stmt_end(src, toks, bs + m.end())
+                    add(p, p, text, "hint", 40, origin=tmpl_origin(lno, 1))
         else:
             raise ValueError("bad anchor " + where)
 
